@@ -113,14 +113,14 @@ class C03(Prop):
         return cases
 
     # ---- implementation ----
-    def _blocks(self, rows_py):
+    def _blocks(self, rows_py, only=None):
         from pdtable import BlockType
         from pdtable.io.parsers.blocks import parse_blocks_stable
 
         def mk(bt):
             return lambda grid, origin=None, fixer=None: (list(grid), origin.input_location.row)
 
-        handlers = {bt: mk(bt) for bt in BlockType}
+        handlers = {bt: mk(bt) for bt in BlockType if only is None or bt.name in only}
         ids = {id(r): i for i, r in enumerate(rows_py)}
         out = []
         for bt, (grid, orow) in parse_blocks_stable(rows_py, block_handlers=handlers):
@@ -135,6 +135,13 @@ class C03(Prop):
         except Exception as e:
             obs["exception"] = f"{type(e).__name__}: {e}"
             return obs
+        # the splitting does not depend on which block types the caller handles: with handlers for some types only,
+        # exactly the blocks of those types come out, unchanged
+        for only in (("TABLE", "DIRECTIVE", "METADATA"), ("TABLE",), ("TABLE", "BLANK")):
+            try:
+                obs.setdefault("partial", {})[",".join(only)] = self._blocks(rows_py, only=only)
+            except Exception as e:
+                obs.setdefault("partial", {})[",".join(only)] = f"{type(e).__name__}"
         # prefix runs for the prefix-stability clause
         n = len(rows_py)
         ks = sorted({0, n // 3, n // 2, max(n - 1, 0)})
@@ -160,6 +167,10 @@ class C03(Prop):
         kinds = [ref_kind(r) for r in rows]
         blocks = obs["blocks"]
         fails = []
+        for only, got in (obs.get("partial") or {}).items():
+            want = [b for b in obs.get("blocks", []) if b[0] in only.split(",")]
+            if got != want:
+                fails.append(f"handlers: with handlers for {only} only, the delivered blocks differ from those of a full handler table")
         flat = [i for _, _, idx in blocks for i in idx]
         if any(b <= a for a, b in zip(flat, flat[1:])):
             fails.append("order: rows not in input order / repeated")
